@@ -136,7 +136,7 @@ func c17Swamp(fs *Facts) {
 	f, err := Load(c17SwampPath)
 	if err != nil {
 		fs.Err("%v", err)
-		for _, n := range []string{"destroyDrainsThenCancels", "closeCancels", "gracefulWaitsOnContext", "ceasePrecedesDestroy"} {
+		for _, n := range []string{"destroyDrainsThenCancels", "drainBeforeSwampMu", "closeCancels", "gracefulWaitsOnContext", "ceasePrecedesDestroy"} {
 			fs.Tri(n, Unknown, c17SwampPath)
 		}
 		return
@@ -269,8 +269,34 @@ func c17Swamp(fs *Facts) {
 		}
 		dd = TriOf(drain >= 0 && !early && late)
 		fs.Tri("destroyDrainsThenCancels", dd, c14Where(f, d))
+		// the swamp mutex: the write path read-locks s.mu while it holds its vigil, so the drain must come before
+		// `s.mu.Lock()` (nothing write-locks s.mu before the drain without releasing it again)
+		mu := Unknown
+		if drain >= 0 {
+			held := false
+			for _, st := range list[:drain] {
+				switch f.Str(st) {
+				case "s.mu.Lock()":
+					held = true
+				case "s.mu.Unlock()":
+					held = false
+				}
+				// a lock taken inside a nested block before the drain: not the modelled shape
+				if f.Str(st) != "s.mu.Lock()" && f.Str(st) != "s.mu.Unlock()" && f.Str(st) != "defer s.mu.Unlock()" && f.Contains(st, "s.mu.Lock()") {
+					mu = Unknown
+					held = false
+					drain = -2
+					break
+				}
+			}
+			if drain >= 0 {
+				mu = TriOf(!held)
+			}
+		}
+		fs.Tri("drainBeforeSwampMu", mu, c14Where(f, d))
 	} else {
 		fs.Tri("destroyDrainsThenCancels", Unknown, c17SwampPath)
+		fs.Tri("drainBeforeSwampMu", Unknown, c17SwampPath)
 	}
 	if c != nil {
 		// after `closing = 1` every path must reach the cancel (helpers inlined): no return in between
